@@ -308,10 +308,10 @@ MUTANTS = [{'expect': ['C13-R5'],
   'prop': 'C05',
   'tests': 'KILLED'}]
 
-EQUIVALENTS = [{'files': [('oneliner/expr_unparse.py', '        elif ord(i) > 255 and', '        elif ord(i) > 127 and')],
+EQUIVALENTS = [{'files': [('oneliner/expr_unparse.py', '        elif ord(i) > 127 and', '        elif not ord(i) <= 127 and')],
   'id': 'm21',
   'props': ['C04'],
-  'why': 'behaviour-preserving by construction (pilot survivor)'},
+  'why': 'the same threshold, negated comparison (the original pilot survivor, > 255 -> > 127, became the repository state with fix c38bafc)'},
  {'files': [('oneliner/pending_nodes.py',
              '        if self.nsp_global.use_importlib:\n            self._insert_import_lib("importlib", "importlib")',
              '        if self.nsp_global.use_importlib:\n'
@@ -444,7 +444,7 @@ MUTANTS += [
     {"id": "n53", "prop": "C14", "expect": ["C14-R1"], "files": [(PN, "            if _alias.asname is not None:\n                asname = _alias.asname\n", "            if _alias.asname is not None:\n                asname = _alias.asname\n                import_func = Name(id=\"__import__\", ctx=Load())\n")]},
     {"id": "n54", "prop": "C14", "expect": ["C14-R5"], "files": [(PN, "        super().__init__(node, nsp, nsp_global)\n        self.nsp_global.use_importlib = True", "        super().__init__(node, nsp, nsp_global)")]},
     {"id": "n55", "prop": "C15", "expect": ["C15-R1"], "files": [(EU, "        _slice = yield PREC_EXPR_SLOT, node.slice", "        _slice = yield PREC_CALL_SLOT_ARG, node.slice")]},
-    {"id": "n56", "prop": "C15", "expect": ["C15-R3", "C15-R2"], "files": [(EU, "            if \"\\\\\" in field:", "            if sys.version_info < (3, 12) and \"\\\\\" in field:"), (EU, "import itertools\nimport typing", "import itertools\nimport sys\nimport typing")]},
+    {"id": "n56", "prop": "C15", "expect": ["C15-R3", "C15-R2"], "files": [(EU, "    if \"\\\\\" in value:", "    if sys.version_info < (3, 12) and \"\\\\\" in value:"), (EU, "import itertools\nimport typing", "import itertools\nimport sys\nimport typing")]},
     {"id": "n58", "prop": "C16", "expect": ["C16-R2"], "files": [("oneliner/__main__.py", "        outfile.write(converted)", "        outfile.write(converted.strip())")]},
     {"id": "n59", "prop": "C16", "expect": ["C16-R3"], "files": [("oneliner/config.py", "            if value not in self.tp:\n                raise ValueError(\n                    f\"Invalid value of config '{self.name}', \"\n                    f\"got '{value}', expected {self.tp}\"\n                )", "            if value not in self.tp:\n                value = self.default")]},
     {"id": "n60", "prop": "C13", "expect": ["C13-R3"], "files": [(PN, "                self.nsp.get_assign(\n                    self.node.target.id,\n                    self._aug_assign_expr(\n                        target,\n                        self.node.op,\n                        assign_value,\n                        fallback=BinOp(\n                            left=target, op=self.node.op, right=assign_value\n                        ),\n                    ),\n                )", "                self._aug_assign_expr(\n                    target,\n                    self.node.op,\n                    assign_value,\n                    fallback=self.nsp.get_assign(\n                        self.node.target.id,\n                        BinOp(left=target, op=self.node.op, right=assign_value),\n                    ),\n                )")]},
